@@ -22,14 +22,14 @@ ASSUMPTIONS = [
     "multiprocessing.Pool replaced by the in-process model (CPython chunking rule, each chunk deep-copied as a whole = pickle semantics)",
     "random solver: random.Random replaced by an exhaustive nondeterministic choice (Part A)",
 ]
-OUTSIDE = ["real process scheduling and real pickling", "the PPO eval path", "n>=4 (Part A n=3 only)", "RandomSolver's own stream under P>1"]
+OUTSIDE = ["real process scheduling and real pickling", "the PPO eval path", "n>=5", "RandomSolver's own stream under P>1"]
 STUBS = ["Pool stub", "draw-counter RNG", "np proxy", "SymArray", "choice stub"]
 
 
 def bounds_text(tier):
     if tier == "quick":
-        return "Part A: n=3, R in {1,2}, 4 solvers, step limit 1..3, P=1; Part B: largest solver, R in {3,6}, P in {1,2,4}"
-    return "Part A: n=3, R in {1,2}, 4 solvers, limits 1..3, 4 gaps; Part B: R in {3,6,8}, P in {1,2,3,4,16}"
+        return "Part A: n=3, R in {1,2}, 4 solvers, step limit 1..3, P=1 (+ any-class games, + one n=4 run); Part B: largest solver, R in {3,6}, P in {1,2,4}"
+    return "Part A: n=3, R in {1,2}, 4 solvers, limits 1..3, 4 gaps, n=4 R=1 4 solvers limits 1,2; Part B: R in {3,6,8}, P in {1,2,3,4,16}, n=4 R=4 P in {1,2,3}"
 
 
 def tasks(tier, seed):
@@ -43,6 +43,14 @@ def tasks(tier, seed):
                     continue
                 out.append({"key": f"A/{solver}/R{R}/limit{limit}", "part": "A", "solver": solver, "R": R, "limit": limit, "P": 1, "n": 3,
                             "gap": rnd.choice(gaps if tier == "thorough" else gaps[:2])})
+    # four players (quick: one configuration; thorough: all four solvers, two limits)
+    for solver in (("largest",) if tier == "quick" else ("largest", "greedy", "greedy_worst", "random")):
+        for limit in ((2,) if tier == "quick" else (1, 2)):
+            out.append({"key": f"A/{solver}/R1/limit{limit}/n4", "part": "A", "solver": solver, "R": 1, "limit": limit, "P": 1, "n": 4,
+                        "gap": "exploitability"})
+    if tier == "thorough":
+        for P in (1, 2, 3):
+            out.append({"key": f"B/largest/R4/P{P}/n4", "part": "B", "solver": "largest", "R": 4, "limit": 2, "P": P, "n": 4, "gap": "l1_norm"})
     # hidden games of ANY class (the recorded gap may be negative when the bounds cross): the rows must still be the true gaps
     for solver in ("largest", "greedy"):
         for limit in (1, 2):
